@@ -272,6 +272,18 @@ func (b *Builder) node(e *env, cond ssa.Value, atom string, yes, no func() *Tree
 	if u, ok := cond.(*ssa.UnOp); ok && u.Op == token.NOT {
 		return b.node(e, u.X, b.canon(e, u.X), no, yes)
 	}
+	// comparisons with a constant are brought to one of the forms
+	// `x == k` and `x > k`: `<=`, `<`, `>=`, `!=` are the same atoms with the
+	// branches exchanged or the constant shifted by one; `s == ""` is
+	// `len(s) == 0`; `len(s) > 0` is the negation of `len(s) == 0`
+	if bo, ok := cond.(*ssa.BinOp); ok {
+		if a, swap, ok := b.canonCompare(e, bo); ok {
+			if swap {
+				yes, no = no, yes
+			}
+			return &Tree{Atom: a, Yes: yes(), No: no()}
+		}
+	}
 	// err != nil / err == nil on a call result
 	if bo, ok := cond.(*ssa.BinOp); ok && (bo.Op == token.NEQ || bo.Op == token.EQL) {
 		if c, ok := bo.Y.(*ssa.Const); ok && c.Value == nil {
@@ -300,6 +312,76 @@ func (b *Builder) node(e *env, cond ssa.Value, atom string, yes, no func() *Tree
 		}
 	}
 	return &Tree{Atom: atom, Yes: yes(), No: no()}
+}
+
+// canonCompare canonicalises a comparison of an integer or string term with a
+// constant.  swap says that the returned atom is the negation of the
+// condition.
+func (b *Builder) canonCompare(e *env, bo *ssa.BinOp) (atom string, swap, ok bool) {
+	x, y, op := bo.X, bo.Y, bo.Op
+	if _, isC := x.(*ssa.Const); isC {
+		if _, isC2 := y.(*ssa.Const); !isC2 {
+			x, y = y, x
+			switch op {
+			case token.LSS:
+				op = token.GTR
+			case token.GTR:
+				op = token.LSS
+			case token.LEQ:
+				op = token.GEQ
+			case token.GEQ:
+				op = token.LEQ
+			}
+		}
+	}
+	c, isC := y.(*ssa.Const)
+	if !isC || c.Value == nil {
+		return "", false, false
+	}
+	term := b.canon(e, x)
+	if c.Value.Kind() == constant.String {
+		if constant.StringVal(c.Value) != "" {
+			return "", false, false
+		}
+		switch op {
+		case token.EQL:
+			return "(len(" + term + ") == 0)", false, true
+		case token.NEQ:
+			return "(len(" + term + ") == 0)", true, true
+		}
+		return "", false, false
+	}
+	if c.Value.Kind() != constant.Int {
+		return "", false, false
+	}
+	k, exact := constant.Int64Val(c.Value)
+	if !exact {
+		return "", false, false
+	}
+	isLen := strings.HasPrefix(term, "len(")
+	gt := func(k int64, neg bool) (string, bool, bool) {
+		// x > k, for a length: x > -1 is true (not produced by source code);
+		// x > 0 is !(x == 0)
+		if isLen && k == 0 {
+			return "(" + term + " == 0)", !neg, true
+		}
+		return fmt.Sprintf("(%s > %d)", term, k), neg, true
+	}
+	switch op {
+	case token.EQL:
+		return fmt.Sprintf("(%s == %d)", term, k), false, true
+	case token.NEQ:
+		return fmt.Sprintf("(%s == %d)", term, k), true, true
+	case token.GTR:
+		return gt(k, false)
+	case token.LEQ:
+		return gt(k, true)
+	case token.GEQ:
+		return gt(k-1, false)
+	case token.LSS:
+		return gt(k-1, true)
+	}
+	return "", false, false
 }
 
 func isBool(f *ssa.Function) bool {
